@@ -171,7 +171,9 @@ Inductive cmd :=
 | CSAdd (k : bytes) (ms : list bytes) | CSRem (k : bytes) (ms : list bytes) | CSPop (k : bytes) (n : Z)
 | CZAdd (k : bytes) (sml : list (Z * bytes)) | CZIncrBy (k : bytes) (d : Z) (m : bytes) | CZRem (k : bytes) (ms : list bytes)
 | CZRemRangeByScore (k : bytes) (lo hi : Z)
-| CLPush (k : bytes) (head : bool) (vs : list bytes) | CLPop (k : bytes) (head : bool).
+| CLPush (k : bytes) (head : bool) (vs : list bytes) | CLPop (k : bytes) (head : bool)
+| CSetOpt (k v : bytes) (ttl : Z) (nx xx : bool) | CSetIfEq (k old v : bytes) (ttl : Z) | CDelIfEq (k old : bytes)
+| CLTrim (k : bytes) (start stop : Z) | CLSet (k : bytes) (idx : Z) (v : bytes) | CZRemRangeByRank (k : bytes) (start stop : Z).
 
 Inductive reply := RNil | RInt (z : Z) | RBulk (b : bytes) | RArr (l : list bytes) | RErr | RUnmodelled.
 
@@ -277,6 +279,34 @@ Definition do_del (p : policy) (s : store) (ts : Z) (ks : list bytes) : store * 
   let ks' := dedup ks in
   let n := length (filter (fun k => match kv_raw p s ts k with (_, Some _, false) => true | _ => false end) ks') in
   (fold_left kv_del ks' s, RInt (Z.of_nat n)).
+
+(* KVSetWithOpts: SET k v [EX s] [NX | XX] *)
+Definition do_setopt p s ts k v ttl (nx xx : bool) : store * reply :=
+  match kv_prepare p s ts k with
+  | (_, ov, ex) =>
+      match kv_cur ov ex with
+      | Some _ => if nx then (s, RInt 0)
+                  else match kv_reset p s ts k v ttl with Some s' => (s', RInt 1) | None => (s, RErr) end
+      | None => if xx then (s, RInt 0)
+                else match kv_reset p s ts k v ttl with Some s' => (s', RInt 1) | None => (s, RErr) end
+      end
+  end.
+(* bytes.Equal(cur, old) where an absent / expired value is nil (equal to the empty string only) *)
+Definition eq_cur (cur : option bytes) (old : bytes) : bool :=
+  match cur with Some b => bytes_eqb b old | None => match old with [] => true | _ => false end end.
+(* SetIfEQ: an expired value is compared as an absent key *)
+Definition do_setifeq p s ts k old v ttl : store * reply :=
+  match kv_prepare p s ts k with
+  | (_, ov, ex) =>
+      if eq_cur (kv_cur ov ex) old
+      then match kv_reset p s ts k v ttl with Some s' => (s', RInt 1) | None => (s, RErr) end
+      else (s, RInt 0)
+  end.
+(* DelIfEQ: compares the STORED value unless it is expired; an expired value is deleted whatever it is *)
+Definition do_delifeq p s ts k old : store * reply :=
+  match kv_raw p s ts k with
+  | (_, ov, ex) => if negb (eq_cur ov old) && negb ex then (s, RInt 0) else do_del p s ts [k]
+  end.
 
 (* ---------- collections: shared header logic ---------- *)
 (* collHeaderMeta: (header, user data if the meta is stored, expired) *)
@@ -545,6 +575,74 @@ Definition do_lpop p s ts k (head : bool) : store * reply :=
       end
   end.
 
+(* sequence numbers hd+a .. hd+b-1 *)
+Definition seq_range (from : Z) (n : Z) : list Z := map (fun i => from + Z.of_nat i) (seq 0 (Z.to_nat n)).
+(* ltrim2 *)
+Definition do_ltrim p s ts k (start stop : Z) : store * reply :=
+  match coll_header p s ts TL k with
+  | (h, ud, ex) =>
+      if not_exist_or_expired ud ex then (s, RNil) else
+      match list_meta_of ud with
+      | (hd, tl, llen) =>
+          let start := if start <? 0 then llen + start else start in
+          let stop := if stop <? 0 then llen + stop else stop in
+          let start := if start <? 0 then 0 else start in
+          if (start >=? llen) || (start >? stop) then
+            (* lDelete: the whole list *)
+            (if llen =? 0 then s
+             else match p with Compact => meta_del s TL k | Local => el_del_gen (meta_del s TL k) TL k (h_ver h) end, RNil)
+          else
+            let stop := if stop >=? llen then llen - 1 else stop in
+            let s1 := fold_left (fun st i => el_del st TL k (h_ver h) (SI i)) (seq_range hd start) s in
+            let s2 := fold_left (fun st i => el_del st TL k (h_ver h) (SI i)) (seq_range (hd + stop + 1) (llen - stop - 1)) s1 in
+            match list_set_meta s2 k h (hd + start) (hd + stop) with
+            | Some s3 => (s3, RNil)
+            | None => (s, RUnmodelled)
+            end
+      end
+  end.
+(* LSet *)
+Definition do_lset p s ts k (idx : Z) v : store * reply :=
+  match coll_header p s ts TL k with
+  | (h, ud, ex) =>
+      if not_exist_or_expired ud ex then (s, RErr) else
+      match list_meta_of ud with
+      | (hd, tl, size) =>
+          if size =? 0 then (s, RErr) else
+          let sq := if idx >=? 0 then hd + idx else tl + idx + 1 in
+          if (sq <? hd) || (sq >? tl) then (s, RErr)
+          else match list_set_meta s k h hd tl with
+               | Some s1 => (el_put s1 TL k (h_ver h) (SI sq) (EB v), RNil)
+               | None => (s, RUnmodelled)
+               end
+      end
+  end.
+(* ZRemRangeByRank: zParseLimit, then zRemRangeBytes over the (score, member) order *)
+Definition do_zremrangebyrank p s ts k (start stop : Z) : store * reply :=
+  match coll_header p s ts TZ k with
+  | (h, ud, ex) =>
+      if ex then (s, RInt 0) else
+      let total := size_of ud in
+      let neg := (start <? 0) || (stop <? 0) in
+      let start1 := if start <? 0 then total + start else start in
+      let stop1 := if stop <? 0 then total + stop else stop in
+      let start2 := if neg && (start1 <? 0) then 0 else start1 in
+      let bad := (neg && (start2 >=? total)) || (start2 >? stop1) in
+      let offset := if bad then -1 else start2 in
+      let count := if bad then 0 else stop1 - start2 + 1 in
+      if total =? 0 then (s, RInt 0) else
+      if (offset =? 0) && (count >=? total) then
+        (if not_exist_or_expired ud ex then (s, RInt 0)
+         else (match p with Compact => meta_del s TZ k | Local => el_del_gen (meta_del s TZ k) TZ k (h_ver h) end, RInt total))
+      else if count >? max_batch_num then (s, RErr)
+      else if offset <? 0 then (incr_size s TZ k h ud 0, RInt 0)
+      else
+        let ms := map (fun e => sub_bytes (fst e))
+                      (firstn (Z.to_nat count) (skipn (Z.to_nat offset) (isort zorder (el_of s TZ k (h_ver h))))) in
+        let s1 := fold_left (fun st m => el_del st TZ k (h_ver h) (SB m)) ms s in
+        (incr_size s1 TZ k h ud (- Z.of_nat (length ms)), RInt (Z.of_nat (length ms)))
+  end.
+
 (* ---------- one write command ---------- *)
 Definition step (p : policy) (s : store) (ts : Z) (c : cmd) : store * reply :=
   match c with
@@ -573,6 +671,12 @@ Definition step (p : policy) (s : store) (ts : Z) (c : cmd) : store * reply :=
   | CZRemRangeByScore k lo hi => do_zremrangebyscore p s ts k lo hi
   | CLPush k head vs => do_lpush p s ts k head vs
   | CLPop k head => do_lpop p s ts k head
+  | CSetOpt k v ttl nx xx => do_setopt p s ts k v ttl nx xx
+  | CSetIfEq k old v ttl => do_setifeq p s ts k old v ttl
+  | CDelIfEq k old => do_delifeq p s ts k old
+  | CLTrim k a b => do_ltrim p s ts k a b
+  | CLSet k i v => do_lset p s ts k i v
+  | CZRemRangeByRank k a b => do_zremrangebyrank p s ts k a b
   end.
 
 (* ---------- reads (clock [now]) ---------- *)
